@@ -674,7 +674,8 @@ class Canon:
         out = []
         for st in body:
             st = self._inline_nested(f, st, depth)
-            if isinstance(st, ast.For) and isinstance(st.iter, ast.Call) and not st.orelse and isinstance(st.target, ast.Name) and self.helper(f, st.iter, generator=True) is not None \
+            if isinstance(st, ast.For) and isinstance(st.iter, ast.Call) and not st.orelse and (isinstance(st.target, ast.Name) or (
+                    isinstance(st.target, ast.Tuple) and all(isinstance(e, ast.Name) for e in st.target.elts))) and self.helper(f, st.iter, generator=True) is not None \
                     and not any(isinstance(x, (ast.Break, ast.Continue, ast.Return, ast.Yield)) for b in st.body for x in ast.walk(b)):
                 # `for v in self._gen(..): body` with a generator helper: the helper's body with `v = E; body` at every `yield E` (a generator is consumed lazily: the
                 # same interleaving)
@@ -689,7 +690,7 @@ class Canon:
                             if isinstance(n.value, ast.Yield):
                                 k_[0] += 1
                                 body_ = copy.deepcopy(st.body) if k_[0] > 1 else list(st.body)
-                                return [ast.copy_location(ast.Assign(targets=[ast.Name(id=st.target.id, ctx=ast.Store())], value=n.value.value, lineno=n.lineno), n)] + body_
+                                return [ast.copy_location(ast.Assign(targets=[copy.deepcopy(st.target)], value=n.value.value, lineno=n.lineno), n)] + body_   # (`a, b = E1, E2` is split later)
                             return n
 
                     new_body = []
@@ -1041,7 +1042,11 @@ class Canon:
                 node.body = _Blocks().block(body2, "func")
                 node = _Small().visit(_AppendLoops().visit(node))
                 node = self._close(node)
-        node = _adjacent_def_use(node)
+        for _round in range(3):   # (`a, b = E1, E2; use(a, b)`: writing `b` out makes the definition of `a` adjacent to its use)
+            before_ = ast.dump(node)
+            node = _adjacent_def_use(node)
+            if ast.dump(node) == before_:
+                break
         node = self._close(node)
         node = self._with_tables(f, node)   # (a table key that was a parameter of a written-out helper is a literal now)
         node = _Small().visit(node)
